@@ -46,11 +46,32 @@ pub fn workload(max_shapes: usize, shx_samples: u16) -> BoxedStrategy<Workload> 
                     proptest::collection::vec(g.clone(), n),
                     proptest::collection::vec(if n > 10 { prop_oneof![30 => Just(0u8), 1 => Just(1u8)].boxed() } else { prop_oneof![5 => Just(0u8), 3 => Just(1u8), 1 => Just(2u8)].boxed() }, n + 1),
                 )
-                    .prop_map(move |(geoms, fins)| Workload {
-                        ty,
-                        geoms,
-                        fins,
-                        shx_samples,
+                    .prop_map(move |(mut geoms, fins)| {
+                        // one workload in six: every shape before the first finalize is huge (or infinite) in one dimension
+                        // and the shapes after it are small there, so a later header rewrite replaces a bound by a very
+                        // different bit pattern
+                        if big >= 2 && big < 4 {
+                            let first_fin = fins.iter().skip(1).position(|f| *f > 0).map(|p| p + 1).unwrap_or(geoms.len());
+                            let dim = (geoms.len() + fins.len()) % 4;
+                            let hugev = [f64::INFINITY, 1e305, f64::MAX, -1e305, f64::NEG_INFINITY, -f64::MAX][(geoms.len() * 7 + fins.len()) % 6];
+                            let small = [1.5, 1.75, -1.5, 0.9375, 3.5][(fins.len() * 3) % 5];
+                            let usable = dim < 2 || (dim == 2 && ty.has_z()) || (dim == 3 && ty.carries_m());
+                            if usable {
+                                for (i, g) in geoms.iter_mut().enumerate() {
+                                    for p in g.parts.iter_mut() {
+                                        for v in p.pts.iter_mut() {
+                                            v[dim] = F::of(if i < first_fin { hugev } else { small });
+                                        }
+                                    }
+                                }
+                            }
+                        }
+                        Workload {
+                            ty,
+                            geoms,
+                            fins,
+                            shx_samples,
+                        }
                     })
             })
         })
